@@ -35,11 +35,11 @@ def make_explicit(plan, res):
 def _ddmin_list(items, test, deadline):
     """Classic ddmin on a list; test(sublist) -> bool (still fails)."""
     n = 2
-    while len(items) >= 1 and time.time() < deadline:
+    while len(items) >= 1 and deadline.open():
         chunk = max(1, len(items) // n)
         reduced = False
         i = 0
-        while i < len(items) and time.time() < deadline:
+        while i < len(items) and deadline.open():
             cand = items[:i] + items[i + chunk:]
             if test(cand):
                 items = cand
@@ -54,11 +54,25 @@ def _ddmin_list(items, test, deadline):
     return items
 
 
-def shrink(plan, res, sig, budget_s=90.0):
+class _Budget:
+    """The minimiser stops after a fixed number of candidate executions (so that
+    the same failing run minimises to the same replay file whatever the machine
+    load); the wall-clock cap is only a safety net."""
+
+    def __init__(self, counter, max_candidates, wall_s):
+        self.counter = counter
+        self.max = max_candidates
+        self.t_end = time.time() + wall_s
+
+    def open(self):
+        return self.counter[0] < self.max and time.time() < self.t_end
+
+
+def shrink(plan, res, sig, budget_s=90.0, max_candidates=None):
     """Returns (minimised explicit plan, stats)."""
     t0 = time.time()
-    deadline = t0 + budget_s
     counter = [0]
+    deadline = _Budget(counter, max_candidates or int(budget_s * 12), budget_s * 6)
     cur = make_explicit(plan, res)
     # keep only faults that actually fired in the failing run
     r0 = fails(cur, sig, counter)
@@ -77,7 +91,7 @@ def shrink(plan, res, sig, budget_s=90.0):
 
     progress = True
     rounds = 0
-    while progress and time.time() < deadline and rounds < 4:
+    while progress and deadline.open() and rounds < 4:
         rounds += 1
         progress = False
         # 1. operations
@@ -122,7 +136,7 @@ def simplify_args(cur, sig, counter, deadline):
 
     def attempt(mutator):
         nonlocal changed
-        if time.time() >= deadline:
+        if not deadline.open():
             return
         p = copy.deepcopy(cur)
         if not mutator(p):
